@@ -4,6 +4,7 @@ symbol table and the image of a program `a ++ b` restricted to `a`.
 -/
 import CoCoVerif.Lemmas.FrontAppend
 import CoCoVerif.Lemmas.AddrOther
+import CoCoVerif.Lemmas.EvalLists
 
 namespace CoCo.Asm
 open CoCo
@@ -423,14 +424,120 @@ theorem evalSyms_mono {ra rb : List Stmt} {t t' : SymTab} (hle : SymTab.Le t t')
     obtain ⟨v', r', h1, h2, rfl⟩ := evalSyms_ok_cons h
     exact evalSyms_cons_ok (evalSym_mono hle h1) (ih h2)
 
+/-! ### the FCB / FDB lists (batch 8) -/
+
+theorem elemNum_mono {ra rb : List Stmt} {r y : Value} (h : elemNum ra r = .ok y) : elemNum (ra ++ rb) r = .ok y := by
+  unfold elemNum at h ⊢
+  by_cases hA : r.isAddress = true
+  · rw [if_pos hA] at h ⊢
+    cases hi : r.int? with
+    | none => rw [hi] at h; cases h
+    | some j =>
+      rw [hi] at h; dsimp only at h ⊢
+      cases ha : addrOf ra j with
+      | none => rw [ha] at h; cases h
+      | some a => rw [addrOf_append ha]; rw [ha] at h; exact h
+  · rw [if_neg hA] at h ⊢
+    by_cases hE : r.isAddrExpr = true
+    · rw [if_pos hE] at h ⊢; exact addrOffset_append h
+    · rw [if_neg hE] at h ⊢; exact h
+
+/-- an evaluated list element stays what it is under a longer table and a longer statement list -/
+theorem evalElem_mono {ra rb : List Stmt} {t t' : SymTab} (hle : SymTab.Le t t') {w : Nat} {x h : Str}
+    (he : evalElem ra t w x = .ok h) : evalElem (ra ++ rb) t' w x = .ok h := by
+  rw [evalElem_eq] at he ⊢
+  cases hc : create 4 x false false true with
+  | error e => rw [hc] at he; cases he
+  | ok v =>
+    rw [hc] at he; dsimp only at he ⊢
+    cases hr : v.resolve t with
+    | error e => rw [hr] at he; cases he
+    | ok r =>
+      rw [hr] at he; dsimp only at he
+      rw [Value.resolve_mono hle hr]; dsimp only
+      obtain ⟨n, a, b, neg, f, h1, _, _⟩ := elemRender_ok he
+      rw [elemNum_mono h1]; rw [h1] at he; exact he
+
+theorem evalElems_mono {ra rb : List Stmt} {t t' : SymTab} (hle : SymTab.Le t t') {w : Nat} :
+    ∀ {xs hs r : List Str}, evalElems ra t w xs hs = .ok r → evalElems (ra ++ rb) t' w xs hs = .ok r := by
+  intro xs
+  induction xs with
+  | nil => intro hs r h; rw [evalElems_nil_left] at h ⊢; exact h
+  | cons x xs ih =>
+    intro hs r h
+    cases hs with
+    | nil => rw [evalElems_nil_right] at h ⊢; exact h
+    | cons h0 hs =>
+      rw [evalElems_cons] at h ⊢
+      cases h1 : evalElem1 ra t w x h0 with
+      | ok h' =>
+        rw [h1] at h; dsimp only at h
+        have h1' : evalElem1 (ra ++ rb) t' w x h0 = .ok h' := by
+          unfold evalElem1 at h1 ⊢
+          split
+          · rename_i hp; rw [if_pos hp] at h1; exact evalElem_mono hle h1
+          · rename_i hp; rw [if_neg hp] at h1; exact h1
+        rw [h1']; dsimp only
+        cases h2 : evalElems ra t w xs hs with
+        | ok r' => rw [ih h2]; rw [h2] at h; exact h
+        | _ => rw [h2] at h; cases h
+      | _ => rw [h1] at h; cases h
+
+theorem evalList1_mono {ra rb : List Stmt} {t t' : SymTab} (hle : SymTab.Le t t') {s s' : Stmt}
+    (h : evalList1 t ra s = .ok s') : evalList1 t' (ra ++ rb) s = .ok s' := by
+  rcases evalList1_additional h with ⟨hs, hs', h1, _, h3⟩ | ⟨hs, hs', h1, _, h3⟩ | ⟨h1, h2, rfl⟩
+  · obtain ⟨hs'', h4, rfl⟩ := evalList1_multiByte h1 h
+    unfold evalList1; rw [h1]; dsimp only; rw [evalElems_mono hle h4]
+  · obtain ⟨hs'', h4, rfl⟩ := evalList1_multiWord h1 h
+    unfold evalList1; rw [h1]; dsimp only; rw [evalElems_mono hle h4]
+  · exact evalList1_keep _ _ h1 h2
+
+theorem evalLists_mono {ra rb : List Stmt} {t t' : SymTab} (hle : SymTab.Le t t') :
+    ∀ {l r : List Stmt}, evalLists t ra l = .ok r → evalLists t' (ra ++ rb) l = .ok r := by
+  intro l
+  induction l with
+  | nil => intro r h; rw [evalLists_nil] at h ⊢; exact h
+  | cons s rest ih =>
+    intro r h
+    rw [evalLists_cons] at h
+    cases h1 : evalList1 t ra s with
+    | ok s' =>
+      rw [h1] at h; dsimp only at h
+      cases h2 : evalLists t ra rest with
+      | ok r' =>
+        rw [h2] at h; cases h
+        exact evalLists_cons_ok (evalList1_mono hle h1) (ih h2)
+      | _ => rw [h2] at h; cases h
+    | _ => rw [h1] at h; cases h
+
+theorem evalLists_append_ok (t : SymTab) (ss : List Stmt) : ∀ (x y r : List Stmt),
+    evalLists t ss (x ++ y) = .ok r → ∃ rx ry, evalLists t ss x = .ok rx ∧ evalLists t ss y = .ok ry ∧ r = rx ++ ry := by
+  intro x
+  induction x with
+  | nil => intro y r h; exact ⟨[], r, evalLists_nil _ _, by simpa using h, rfl⟩
+  | cons s rest ih =>
+    intro y r h
+    rw [List.cons_append, evalLists_cons] at h
+    cases h1 : evalList1 t ss s with
+    | ok s' =>
+      rw [h1] at h; dsimp only at h
+      cases h2 : evalLists t ss (rest ++ y) with
+      | ok r2 =>
+        rw [h2] at h; cases h
+        obtain ⟨rx, ry, e1, e2, e3⟩ := ih _ _ h2
+        exact ⟨s' :: rx, ry, evalLists_cons_ok h1 e1, e2, by rw [e3]; rfl⟩
+      | _ => rw [h2] at h; cases h
+    | _ => rw [h1] at h; cases h
+
 /-! ### `finish` -/
 
-/-- STATEMENT CHANGED in batch 4: the final symbol table is made from the table with the EQU expressions evaluated -/
+/-- STATEMENT CHANGED in batch 4: the final symbol table is made from the table with the EQU expressions evaluated;
+STATEMENT CHANGED in batch 8: `fixAllL t ss4` (was `fixAll ss4 0 ss4`) -/
 theorem finish_ok {t : SymTab} {ss4 : List Stmt} {A : Assembly} (h : finish t ss4 = .ok A) :
-    fixAll ss4 0 ss4 = .ok A.stmts ∧
+    fixAllL t ss4 = .ok A.stmts ∧
       ∃ t1, evalSyms A.stmts t t = .ok t1 ∧ finalSymTab A.stmts t1 = .ok A.symtab := by
   unfold finish at h
-  cases h1 : fixAll ss4 0 ss4 with
+  cases h1 : fixAllL t ss4 with
   | ok ss5 =>
     rw [h1] at h
     dsimp only at h
@@ -453,12 +560,18 @@ theorem finish_prefix {t1 d : SymTab} {la lb : List Stmt} {A B : Assembly}
     (hA : finish t1 la = .ok A) (hB : finish (t1 ++ d) (la ++ lb) = .ok B)
     (hbr : BranchInside la.length la) :
     (∃ r, B.stmts = A.stmts ++ r) ∧ (∃ d', B.symtab = A.symtab ++ d') := by
-  obtain ⟨a1, ta, a3, a2⟩ := finish_ok hA
-  obtain ⟨b1, tb, b3, b2⟩ := finish_ok hB
-  obtain ⟨rx, ry, e1, _, e3⟩ := fixAll_append_ok _ _ _ _ _ b1
-  have := fixAll_mono (rb := lb) la 0 A.stmts (by simp) hbr a1
+  obtain ⟨a0, ta, a3, a2⟩ := finish_ok hA
+  obtain ⟨b0, tb, b3, b2⟩ := finish_ok hB
+  obtain ⟨xa, a1, a1'⟩ := fixAllL_ok.1 a0
+  obtain ⟨xb, b1, b1'⟩ := fixAllL_ok.1 b0
+  obtain ⟨rx, ry0, e1, _, e3'⟩ := fixAll_append_ok _ _ _ _ _ b1
+  have := fixAll_mono (rb := lb) la 0 xa (by simp) hbr a1
   rw [this] at e1
   cases e1
+  subst e3'
+  obtain ⟨qx, ry, q1, _, e3⟩ := evalLists_append_ok _ _ _ _ _ b1'
+  rw [evalLists_mono (SymTab.le_append t1 d) a1'] at q1
+  cases q1
   rw [e3] at b2 b3
   obtain ⟨tx, ty, g1, _, g3⟩ := evalSyms_append_ok b3
   rw [evalSyms_mono (SymTab.le_append t1 d) a3] at g1
